@@ -95,7 +95,10 @@ import "bytes"
 //@   let w0 = written(dest)
 //@   let n = len(segment.Payload.UncompressedData)
 //@   ensures lens: err == nil ==> lensOk(segment.Header) && (segment.Header.UncompressedPayloadLength == 0 ==> Z(segment.Header.CompressedPayloadLength) == Z(n)) && (segment.Header.UncompressedPayloadLength != 0 ==> Z(segment.Header.UncompressedPayloadLength) == Z(n) && segment.Header.CompressedPayloadLength <= segment.Header.UncompressedPayloadLength)
-//@   ensures length: err == nil ==> written(dest) == w0 + 8 + Z(segment.Header.CompressedPayloadLength) + 4
+// (stated for the compressed case only: in the fallback case the bytes written are what is left unread in the source
+// buffer, and that the compressor leaves a *bytes.Buffer source unread is a detail of lz4's bufferFromReader, not part
+// of the PayloadCompressor contract - see /verif/DESIGN.md section 13)
+//@   ensures length: err == nil && segment.Header.UncompressedPayloadLength != 0 ==> written(dest) == w0 + 8 + Z(segment.Header.CompressedPayloadLength) + 4
 //@   ensures header: err == nil ==> wle5(dest, w0) == hdrC(segment.Header) && wle3(dest, w0 + 5) == uint64(crc.ChecksumKoopman(hdrC(segment.Header), 5))
 // whatever the compressor produces, the payload is sent (compressed, or as is when compression does not pay): with an
 // in-memory destination nothing can make the encoder fail
